@@ -322,7 +322,7 @@ pub fn step(pre: &Value, a: &Action, prefix: PathPrefix, acc: &mut Acc) -> Optio
 pub fn run(tier: Tier) -> Report {
     let mut rep = Report::new("C18", tier, "model_checking");
     // two passes: (path length, depth)
-    let passes: Vec<(usize, u32)> = if tier.thorough() { vec![(2, 3), (3, 2)] } else { vec![(2, 2)] };
+    let passes: Vec<(usize, u32)> = if tier.thorough() { vec![(2, 3), (3, 2)] } else { vec![(2, 2), (3, 1)] };
     let mut total = BfsStats::default();
     let mut classes = BTreeSet::new();
     let mut law_checks = 0u64;
